@@ -6,6 +6,9 @@ CONSTANTS
   ShallowChildDict = TRUE
   SharedPath = FALSE
   EmptyListPassThrough = FALSE
+  Mode = "copy"
+  HashCache = "none"
+  CopyViaCtor = FALSE
   Emit = FALSE
 INVARIANT CopyEqual
 INVARIANT Independence
